@@ -10,8 +10,11 @@ PROPS = {
                       "SerialJoin::join's body is verified against the Join contract",
         "level_note": "rayon_core::join (RayonJoin::join) is ASSUMED to meet the Join contract and to be data-race free; "
                       "interleavings are argued from frames + Rust aliasing rules, not explored; the C/C++ TBB half is not "
-                      "applicable (C++), only the C seam's frame is checked under C07",
-        "units": {"quick": [v("tree"), v("tree", "A", join_order="rl"), v("hasher"), v("spec_lemmas")],
+                      "applicable (C++); on the C side blake3_hasher_update_tbb (same contract as blake3_hasher_update) and the "
+                      "-DBLAKE3_USE_TBB build of blake3_compress_subtree_wide are checked against an assumed contract of the "
+                      "oneTBB join seam; update_mmap_rayon (unit io) == update_reader on a freshly opened file",
+        "units": {"quick": [v("tree"), v("tree", "A", join_order="rl"), v("hasher"), v("spec_lemmas"), v("io"),
+                            c("blake3_hasher_update_tbb"), c("blake3_compress_subtree_wide_tbb")],
                   "thorough": [v("hasher", "A", join_order="rl")]},
         "explanation": "update_rayon == update_with_join::<RayonJoin>; both are instances of the generic function proved once "
                        "for all J. Determinism under every schedule follows from: results are functions of the inputs "
